@@ -121,6 +121,7 @@ def register(reg):
             eng.heap_write(st, h, "H.our", VInt(H_IDLE))
             eng.heap_write(st, h, "H.their", VInt(H_IDLE))
             eng.heap_write(st, self_v, "H11._h11_state", h)
+            eng.heap_write(st, self_v, "CI.origin", a["origin"])
             it.emit(st, "H11.__init__", node, conn=self_v, **a)
             return NONE
 
@@ -424,12 +425,12 @@ def register(reg):
     @reg.contract
     class ReceiveEvent(Contract):
         key = H11 + "._receive_event"
-        props = ("C02", "C15", "C16")
+        props = ("C02", "C15", "C16", "C14")
         params = {"timeout": "val"}
         result_kind = "ref:" + EV
         modifies = ("NS.pending", "H.their", "H.fed", "H.eof", "H.trailing")
         raises = NET_READ_RAISES + [RPE, "Cancelled"]
-        raises_props = ("C15",)
+        raises_props = ("C15", "C14")
 
         def ensures(self, c):
             r = c.result
@@ -504,10 +505,10 @@ def register(reg):
     @reg.contract
     class ReceiveResponseHeaders(Contract):
         key = H11 + "._receive_response_headers"
-        props = ("C02", "C16", "C17", "C15", "C01")
+        props = ("C02", "C16", "C17", "C15", "C01", "C14")
         modifies = ("NS.pending", "H.their", "H.fed", "H.eof", "H.trailing")
         raises = NET_READ_RAISES + [RPE, "Cancelled"]
-        raises_props = ("C15",)
+        raises_props = ("C15", "C14")
 
         def head_facts(self, c, event, res):
             """res: VTuple (http_version, status, reason, headers, trailing)"""
@@ -584,9 +585,9 @@ def register(reg):
     class ReceiveResponseBody(GeneratorContract):
         key = H11 + "._receive_response_body"
         modifies = ("NS.pending", "H.their", "H.fed", "H.eof", "H.trailing")
-        props = ("C02", "C16", "C15")
+        props = ("C02", "C16", "C15", "C14")
         raises = NET_READ_RAISES + [RPE, "Cancelled", "GeneratorExit"]
-        raises_props = ("C15",)
+        raises_props = ("C15", "C14")
 
         def callsite(self, c, ev):
             if ev.name == "call:" + H11 + "._receive_event":
@@ -802,9 +803,9 @@ def register(reg):
     @reg.contract
     class BSIter(Contract):
         key = BS + ".__aiter__"
-        props = ("C01", "C02", "C05", "C15")
+        props = ("C01", "C02", "C05", "C15", "C14")
         raises = NET_READ_RAISES + [RPE, "Cancelled", "GeneratorExit"]
-        raises_props = ("C15",)
+        raises_props = ("C15", "C14")
 
         def setup(self, c):
             conn = c.new(c.self, "BS._connection")
